@@ -213,4 +213,55 @@ example :
   refine ⟨by rfl, ?_, by rfl⟩
   simp [Touches, bcast]
 
+/-! ### units registered while the server runs -/
+
+theorem insert_keys_mem (l : List (Int × σ)) (k : Int) (v : σ) : k ∈ (ServerCtx.insert l k v).map (·.1) := by
+  induction l with
+  | nil => simp [ServerCtx.insert]
+  | cons kv r ih =>
+    obtain ⟨k0, v0⟩ := kv
+    simp only [ServerCtx.insert]
+    split
+    · rename_i h; simp [h]
+    · simp only [List.map_cons, List.mem_cons]; right; exact ih
+
+/-- a unit registered while the server runs (`context[v] = slave`, multi-unit context) is a unit the receive path accepts from
+    then on: its id is in the list every front-end hands its framer the next time it fetches it (seeded change C09-14 cached
+    that list by its LENGTH) -/
+theorem registered_unit_accepted (cfg : Cfg) (ctx ctx' : Units) (v : Nat) (s : SlaveCtx) (hm : ctx.single = false)
+    (h : ctx.setItem (v : Int) s = .ok ctx') : v ∈ acceptedUnits cfg ctx' := by
+  unfold ServerCtx.setItem at h
+  simp only [hm, Bool.false_eq_true, if_false] at h
+  split at h
+  · injection h with h
+    have hk : (v : Int) ∈ ctx'.slaves.map (·.1) := by rw [← h]; exact insert_keys_mem _ _ _
+    have hh : v ∈ hosted ctx' := by
+      unfold hosted
+      rw [List.mem_map] at hk ⊢
+      obtain ⟨kv, hkv, he⟩ := hk
+      exact ⟨kv, hkv, by rw [he]; rfl⟩
+    unfold acceptedUnits
+    split
+    · exact List.mem_append_left _ hh
+    · exact hh
+  · cases h
+
+/-- ... and a request addressed to it is executed on the registered tables and answered -/
+theorem registered_unit_served (cfg : Cfg) (w : World) (us : Units) (v : Nat) (s : SlaveCtx) (r : Req)
+    (hm : w.units.single = false) (h : w.units.setItem (v : Int) s = .ok us) (hb : bcast cfg v = false) :
+    (callback cfg { w with units := us } r v).2 = some (execAny w.ctl s r).2.2 := by
+  have hs : us.single = false := by
+    unfold ServerCtx.setItem at h; simp only [hm, Bool.false_eq_true, if_false] at h
+    split at h
+    · injection h with h; rw [← h]
+    · cases h
+  have hg : us.getItem v = .ok s := by
+    unfold ServerCtx.setItem at h; simp only [hm, Bool.false_eq_true, if_false] at h
+    split at h
+    · injection h with h
+      unfold ServerCtx.getItem
+      rw [← h]; simp only [Bool.false_eq_true, if_false, C18.lookup_insert, if_true]
+    · cases h
+  exact (addressed_unit_executed cfg { w with units := us } r v hb s hg).2
+
 end Pymodbus.Props.C10
